@@ -158,13 +158,13 @@ def run(env):
     res = env.drive("smallorder", cw.text())
     env.require_complete(res, "smallorder")
     mr = env.pmap(monitor, res.sessions, workload="smallorder")
-    if not env.quick():
-        # the zero check under other code generation: native CPU features (SIMD paths), size-optimised, unoptimised
-        small = build(env, 1, 200).text()
-        for b in ("native", "opts", "opt0", "fast"):
-            rb = env.drive("smallorder", small, build=b)
-            env.require_complete(rb, "smallorder/" + b)
-            env.pmap(monitor, rb.sessions, workload="smallorder")
+    # the zero check under other code generation: native CPU features (compile-time SIMD paths) every time;
+    # size-optimised, unoptimised and release builds in the thorough tier
+    small = build(env, 1, 200).text()
+    for b in env.pick(("native",), ("native", "opts", "opt0", "fast")):
+        rb = env.drive("smallorder", small, build=b)
+        env.require_complete(rb, "smallorder/" + b)
+        env.pmap(monitor, rb.sessions, workload="smallorder")
     res2 = env.drive("structured", build_structured(env, env.pick(4, 40)).text())
     env.require_complete(res2, "structured")
     env.pmap(monitor, res2.sessions, workload="structured")
